@@ -18,6 +18,7 @@ type thread struct {
 	done    bool
 	blocked func() bool // nil = runnable; otherwise enabled when it returns true
 	what    string
+	pending pend
 }
 
 type sched struct {
@@ -30,6 +31,8 @@ type sched struct {
 	mutexes     map[*Value]*mutexState
 	wgs         map[*Value]*int
 	schedule    []int // thread id at each scheduling point (trace for replay)
+	whats       []string
+	sleep       map[*thread]bool
 }
 
 type mutexState struct {
@@ -40,7 +43,7 @@ type mutexState struct {
 type killed struct{}
 
 func (r *run) initSched() {
-	r.sch = &sched{kill: make(chan struct{}), mainDone: make(chan struct{}), mutexes: map[*Value]*mutexState{}, wgs: map[*Value]*int{}}
+	r.sch = &sched{kill: make(chan struct{}), mainDone: make(chan struct{}), mutexes: map[*Value]*mutexState{}, wgs: map[*Value]*int{}, sleep: map[*thread]bool{}}
 	main := &thread{id: 0, resume: make(chan struct{}, 1)}
 	r.sch.threads = []*thread{main}
 	r.sch.cur = main
@@ -48,56 +51,111 @@ func (r *run) initSched() {
 
 func (t *thread) enabled() bool { return !t.done && (t.blocked == nil || t.blocked()) }
 
-// yield is a scheduling point. If block != nil the current thread cannot proceed until block() is true.
-func (r *run) yield(what string, block func() bool) {
+// pend describes the operation a parked thread will perform when it is resumed.
+type pend struct {
+	global bool  // conflicts with every other operation (unknown object)
+	objs   []any // the synchronisation objects it touches
+}
+
+func dependent(a, b pend) bool {
+	if a.global || b.global {
+		return true
+	}
+	for _, x := range a.objs {
+		for _, y := range b.objs {
+			if x == y {
+				return true
+			}
+		}
+	}
+	return false
+}
+
+// yield is a scheduling point on an unknown object (conflicts with everything).
+func (r *run) yield(what string, block func() bool) { r.yieldOn(what, nil, block) }
+
+// yieldOn is a scheduling point before an operation on the given synchronisation objects.
+// If block != nil the current thread cannot proceed until block() is true.
+func (r *run) yieldOn(what string, objs []any, block func() bool) {
 	s := r.sch
 	me := s.cur
 	me.blocked = block
 	me.what = what
-	for {
-		var en []*thread
-		for _, t := range s.threads {
-			if t.enabled() {
-				en = append(en, t)
-			}
-		}
-		if len(en) == 0 {
-			panic(pathEnd{kind: "deadlock", msg: "all goroutines are blocked; " + r.blockedSummary()})
-		}
-		sort.Slice(en, func(i, j int) bool { return en[i].id < en[j].id })
-		next := en[0]
-		meEnabled := me.enabled()
-		if len(en) > 1 {
-			if meEnabled && s.preemptions >= r.eng.MaxPreempt {
-				next = me
-			} else {
-				// put the current thread first so that decision 0 = "continue"
-				if meEnabled {
-					for i, t := range en {
-						if t == me {
-							en[0], en[i] = en[i], en[0]
-						}
-					}
-				}
-				k := r.chooseN(len(en), "schedule")
-				next = en[k]
-				if meEnabled && next != me {
-					s.preemptions++
-				}
-			}
-		}
-		s.schedule = append(s.schedule, next.id)
-		if next == me {
-			me.blocked = nil
-			return
-		}
-		s.cur = next
-		next.resume <- struct{}{}
-		r.park(me)
-		// resumed: we are current again and enabled by construction
+	me.pending = pend{global: objs == nil, objs: objs}
+	next := r.pickNext(me, what)
+	if next == me {
 		me.blocked = nil
 		return
 	}
+	s.cur = next
+	next.resume <- struct{}{}
+	r.park(me)
+	// resumed: we are current again and enabled by construction
+	me.blocked = nil
+}
+
+// pickNext chooses the thread to run at a scheduling point (me == nil when the current thread has exited).
+// Exploration is preemption-bounded and reduced with sleep sets: a thread whose pending operation was already
+// explored first at an earlier choice point sleeps until a dependent operation (same object) is executed.
+func (r *run) pickNext(me *thread, what string) *thread {
+	s := r.sch
+	var en []*thread
+	for _, t := range s.threads {
+		if t.enabled() {
+			en = append(en, t)
+		}
+	}
+	if len(en) == 0 {
+		panic(pathEnd{kind: "deadlock", msg: "all goroutines are blocked; " + r.blockedSummary()})
+	}
+	sort.Slice(en, func(i, j int) bool { return en[i].id < en[j].id })
+	meEnabled := me != nil && me.enabled()
+	var next *thread
+	if meEnabled && len(en) > 1 && s.preemptions >= r.eng.MaxPreempt {
+		next = me // preemption budget used up: the running thread continues
+		if s.sleep[me] {
+			panic(pathEnd{kind: "pruned", msg: "sleep set: continuation already covered"})
+		}
+	} else {
+		var cands []*thread
+		if meEnabled && !s.sleep[me] {
+			cands = append(cands, me) // decision 0 = "continue"
+		}
+		for _, t := range en {
+			if t != me && !s.sleep[t] {
+				cands = append(cands, t)
+			}
+		}
+		if len(cands) == 0 {
+			panic(pathEnd{kind: "pruned", msg: "sleep set: every enabled goroutine is asleep"})
+		}
+		k := 0
+		if len(cands) > 1 {
+			k = r.chooseN(len(cands), "schedule")
+		}
+		next = cands[k]
+		if !r.eng.NoSleepSets {
+			for _, t := range cands[:k] {
+				s.sleep[t] = true
+			}
+		}
+		if meEnabled && next != me {
+			s.preemptions++
+		}
+	}
+	// next now executes its pending operation: wake the sleepers that depend on it
+	for t := range s.sleep {
+		if t == next || dependent(t.pending, next.pending) {
+			delete(s.sleep, t)
+		}
+	}
+	s.schedule = append(s.schedule, next.id)
+	from := "exit"
+	if me != nil {
+		from = fmt.Sprintf("g%d:%s", me.id, what)
+	}
+	s.whats = append(s.whats, fmt.Sprintf("%s->g%d", from, next.id))
+	return next
 }
 
 func (r *run) park(t *thread) {
@@ -153,6 +211,11 @@ func (r *run) chooseN(n int, what string) int {
 
 // spawn starts a new interpreted goroutine.
 func (r *run) spawn(fn Value, args []Value) {
+	r.spawnEnv("", func() { r.call(fn, args) })
+}
+
+// spawnEnv starts an engine thread running body (interpreted goroutines and environment threads such as timers).
+func (r *run) spawnEnv(name string, body func()) {
 	s := r.sch
 	t := &thread{id: len(s.threads), resume: make(chan struct{}, 1)}
 	s.threads = append(s.threads, t)
@@ -173,7 +236,7 @@ func (r *run) spawn(fn Value, args []Value) {
 			}
 		}()
 		r.park(t) // wait to be scheduled the first time
-		r.call(fn, args)
+		body()
 		t.done = true
 		t.what = "finished"
 		// hand the baton to someone else
@@ -184,43 +247,36 @@ func (r *run) spawn(fn Value, args []Value) {
 // threadExit schedules another thread after the current one finished (never returns to caller's code).
 func (r *run) threadExit() {
 	s := r.sch
-	var en []*thread
+	anyEnabled := false
+	allDone := true
 	for _, t := range s.threads {
 		if t.enabled() {
-			en = append(en, t)
+			anyEnabled = true
+		}
+		if !t.done {
+			allDone = false
 		}
 	}
-	if len(en) == 0 {
-		// every goroutine finished or is blocked
-		allDone := true
-		for _, t := range s.threads {
-			if !t.done {
-				allDone = false
-			}
-		}
+	if !anyEnabled {
 		if !allDone {
 			s.fatal = pathEnd{kind: "deadlock", msg: "all goroutines are blocked; " + r.blockedSummary()}
 		}
 		close(s.mainDone)
 		return
 	}
-	sort.Slice(en, func(i, j int) bool { return en[i].id < en[j].id })
-	k := 0
-	if len(en) > 1 {
-		func() {
-			defer func() {
-				if x := recover(); x != nil {
-					s.fatal = x
-					close(s.mainDone)
-					panic(killed{})
-				}
-			}()
-			k = r.chooseN(len(en), "schedule-after-exit")
+	var next *thread
+	func() {
+		defer func() {
+			if x := recover(); x != nil {
+				s.fatal = x
+				close(s.mainDone)
+				panic(killed{})
+			}
 		}()
-	}
-	s.schedule = append(s.schedule, en[k].id)
-	s.cur = en[k]
-	en[k].resume <- struct{}{}
+		next = r.pickNext(nil, "exit")
+	}()
+	s.cur = next
+	next.resume <- struct{}{}
 }
 
 // ---- sync primitives ----
@@ -237,12 +293,13 @@ func (r *run) mutexOf(p *Value) *mutexState {
 func threadIntrinsics(m map[string]Intrinsic) {
 	lock := func(r *run, fr *frame, args []Value) Value {
 		mu := r.mutexOf(args[0].(*Value))
-		r.yield("Lock", func() bool { return !mu.writer && mu.readers == 0 })
+		r.yieldOn("Lock", []any{mu}, func() bool { return !mu.writer && mu.readers == 0 })
 		mu.writer = true
 		return nil
 	}
 	unlock := func(r *run, fr *frame, args []Value) Value {
 		mu := r.mutexOf(args[0].(*Value))
+		r.yieldOn("Unlock", []any{mu}, nil)
 		if !mu.writer {
 			panic(goPanic{msg: "sync: unlock of unlocked mutex"})
 		}
@@ -255,12 +312,13 @@ func threadIntrinsics(m map[string]Intrinsic) {
 	m["(*sync.RWMutex).Unlock"] = unlock
 	m["(*sync.RWMutex).RLock"] = func(r *run, fr *frame, args []Value) Value {
 		mu := r.mutexOf(args[0].(*Value))
-		r.yield("RLock", func() bool { return !mu.writer })
+		r.yieldOn("RLock", []any{mu}, func() bool { return !mu.writer })
 		mu.readers++
 		return nil
 	}
 	m["(*sync.RWMutex).RUnlock"] = func(r *run, fr *frame, args []Value) Value {
 		mu := r.mutexOf(args[0].(*Value))
+		r.yieldOn("RUnlock", []any{mu}, nil)
 		mu.readers--
 		return nil
 	}
@@ -282,7 +340,7 @@ func threadIntrinsics(m map[string]Intrinsic) {
 	}
 	m["(*sync.WaitGroup).Done"] = func(r *run, fr *frame, args []Value) Value {
 		c := wg(r, args[0].(*Value))
-		r.yield("WaitGroup.Done", nil)
+		r.yieldOn("WaitGroup.Done", []any{c}, nil)
 		*c--
 		if *c < 0 {
 			panic(goPanic{msg: "sync: negative WaitGroup counter"})
@@ -291,28 +349,10 @@ func threadIntrinsics(m map[string]Intrinsic) {
 	}
 	m["(*sync.WaitGroup).Wait"] = func(r *run, fr *frame, args []Value) Value {
 		c := wg(r, args[0].(*Value))
-		r.yield("WaitGroup.Wait", func() bool { return *c == 0 })
+		r.yieldOn("WaitGroup.Wait", []any{c}, func() bool { return *c == 0 })
 		return nil
 	}
 	m["runtime.Gosched"] = func(r *run, fr *frame, args []Value) Value { r.yield("Gosched", nil); return nil }
-	m["sync/atomic.LoadUint64"] = func(r *run, fr *frame, args []Value) Value {
-		r.yield("atomic.Load", nil)
-		return *(args[0].(*Value))
-	}
-	m["sync/atomic.StoreUint64"] = func(r *run, fr *frame, args []Value) Value {
-		r.yield("atomic.Store", nil)
-		*(args[0].(*Value)) = args[1]
-		return nil
-	}
-	m["sync/atomic.CompareAndSwapUint64"] = func(r *run, fr *frame, args []Value) Value {
-		r.yield("atomic.CAS", nil)
-		p := args[0].(*Value)
-		if r.branch(term.Eq(asTerm(*p), asTerm(args[1]))) {
-			*p = args[2]
-			return term.True
-		}
-		return term.False
-	}
 	m[rtPkg+"Yield"] = func(r *run, fr *frame, args []Value) Value { r.yield("rt.Yield", nil); return nil }
 }
 
@@ -322,14 +362,14 @@ func (r *run) chanSend(c *Chan, v Value) {
 	if c == nil {
 		r.yield("send on nil chan", func() bool { return false })
 	}
-	r.yield("chan send", func() bool { return c.closed || len(c.buf) < c.cap || c.recvWaiting > 0 })
+	r.yieldOn("chan send", []any{c}, func() bool { return c.closed || len(c.buf) < c.cap || c.recvWaiting > 0 })
 	if c.closed {
 		panic(goPanic{msg: "send on closed channel"})
 	}
 	c.buf = append(c.buf, copyVal(v))
 	if len(c.buf) > c.cap {
 		// rendezvous: wait until the receiver took it
-		r.yield("chan send (rendezvous)", func() bool { return len(c.buf) <= c.cap })
+		r.yieldOn("chan send (rendezvous)", []any{c}, func() bool { return len(c.buf) <= c.cap })
 	}
 }
 
@@ -338,7 +378,7 @@ func (r *run) chanRecvOp(c *Chan) (Value, bool) {
 		r.yield("recv on nil chan", func() bool { return false })
 	}
 	c.recvWaiting++
-	r.yield("chan recv", func() bool { return len(c.buf) > 0 || c.closed })
+	r.yieldOn("chan recv", []any{c}, func() bool { return len(c.buf) > 0 || c.closed })
 	c.recvWaiting--
 	if len(c.buf) > 0 {
 		v := c.buf[0]
@@ -385,10 +425,19 @@ func (r *run) selectOp(instr *ssa.Select, fr *frame) Value {
 			k.c.recvWaiting++
 		}
 	}
+	var sobjs []any
+	for _, k := range cases {
+		if k.c != nil {
+			sobjs = append(sobjs, k.c)
+		}
+	}
+	if sobjs == nil {
+		sobjs = []any{}
+	}
 	if instr.Blocking {
-		r.yield("select", anyReady)
+		r.yieldOn("select", sobjs, anyReady)
 	} else {
-		r.yield("select (non-blocking)", nil)
+		r.yieldOn("select (non-blocking)", sobjs, nil)
 	}
 	for _, k := range cases {
 		if k.recv && k.c != nil {
@@ -433,7 +482,7 @@ func (r *run) selectOp(instr *ssa.Select, fr *frame) Value {
 		}
 		k.c.buf = append(k.c.buf, copyVal(k.send))
 		if len(k.c.buf) > k.c.cap {
-			r.yield("select send (rendezvous)", func() bool { return len(k.c.buf) <= k.c.cap })
+			r.yieldOn("select send (rendezvous)", []any{k.c}, func() bool { return len(k.c.buf) <= k.c.cap })
 		}
 	}
 	return append(res, recvVals...)
